@@ -1,4 +1,5 @@
 """C20 - equations of state invert consistently."""
+import re
 from fractions import Fraction as Fr
 
 from ..nf import Rat, C
@@ -22,7 +23,33 @@ def check(run, repo):
                        'unit model of pmutt.constants as verified by C12']
     run.undecided = ['root-finding numerics (conditioning of the cubic)', 'the low-density limit as a limit '
                      '(only the a=b=0 reduction is decided)']
+    body(run, repo, False)
+    # the same obligations with the state given as Python ints (T=500, n=2): dispatch on the type of an argument must
+    # not change the result
+    body(_Suffixed(run, ' [integer arguments]'), repo, True)
+
+
+class _Suffixed:
+    """the run, with a suffix on every instance key (a second pass over the same obligations)"""
+
+    def __init__(self, run, suffix):
+        self._run, self._suffix = run, suffix
+
+    def __getattr__(self, name):
+        return getattr(self._run, name)
+
+    def check(self, cond, rule, construct, key, why, *a, **k):
+        return self._run.check(cond, rule, construct, key + self._suffix, why, *a, **k)
+
+    def fail(self, rule, construct, key, why, *a, **k):
+        return self._run.fail(rule, construct, key + self._suffix, why, *a, **k)
+
+
+def body(run, repo, ints):
     I = Interp(repo)
+    I.track_print_precision = True      # a number that is printed and parsed again is a rounded number
+    if ints:
+        I.int_syms.update('TPVn')
     D = I.D
     T, P, V, n = (D.sym(k) for k in 'TPVn')
     ig = Obj('ig', repo.cls(EOS + '.IdealGasEOS'))
@@ -91,7 +118,7 @@ def check(run, repo):
     for gas in (True, False):
         r = I.call_method(vw, 'get_Vm', [], {'T': T, 'P': P, 'gas_phase': gas})
         want_kind = 'MAX' if gas else 'MIN'
-        ok = isinstance(r, Rat) and len(r.atoms()) == 1 and list(r.atoms())[0].startswith(want_kind + '{ROOT') \
+        ok = isinstance(r, Rat) and len(r.atoms()) == 1 and re.fullmatch(want_kind + r'\{REAL\{ROOT#\d+\}\}', list(r.atoms())[0]) is not None \
             and r.eq(Rat.atom(list(r.atoms())[0]))
         run.check(ok, 'ORDER.root', 'vanDerWaalsEOS.get_Vm', 'gas_phase=%s' % gas,
                   'the %s phase must use the %s real root of the cubic, got %s'
@@ -122,7 +149,7 @@ def check(run, repo):
                   owner.module, fn)
         # V = n*Vm ; n = V/Vm ; Vm free of n
         Vg = I.call_method(vw, 'get_V', [], {'T': T, 'P': P, 'n': n, 'gas_phase': gas})
-        at2 = [x for x in Vg.atoms() if x.startswith(want_kind + '{ROOT')] if isinstance(Vg, Rat) else []
+        at2 = [x for x in Vg.atoms() if re.fullmatch(want_kind + r'\{REAL\{ROOT#\d+\}\}', x)] if isinstance(Vg, Rat) else []
         o2, f2 = repo.find_method(vci, 'get_V')
         ok2 = len(at2) == 1 and Vg.eq(Rat.atom(at2[0]) * n) and \
             all('n' not in c_.atoms() for c_ in I.roots[at2[0]]) and \
@@ -130,7 +157,7 @@ def check(run, repo):
         run.check(ok2, 'REF.V=n*Vm', 'vanDerWaalsEOS.get_V', 'gas=%s' % gas,
                   'V is not n times the molar volume root (which must not depend on n): %s' % show(Vg), o2.module, f2)
         ng = I.call_method(vw, 'get_n', [], {'V': V, 'P': P, 'T': T, 'gas_phase': gas})
-        at3 = [x for x in ng.atoms() if x.startswith(want_kind + '{ROOT')] if isinstance(ng, Rat) else []
+        at3 = [x for x in ng.atoms() if re.fullmatch(want_kind + r'\{REAL\{ROOT#\d+\}\}', x)] if isinstance(ng, Rat) else []
         o3, f3 = repo.find_method(vci, 'get_n')
         ok3 = len(at3) == 1 and ng.eq(V / Rat.atom(at3[0])) and all(x.eq(y) for x, y in zip(I.roots[at3[0]], co))
         run.check(ok3, 'REF.n=V/Vm', 'vanDerWaalsEOS.get_n', 'gas=%s' % gas,
